@@ -195,7 +195,7 @@ func (g *G) probeExpr(sc scopeInfo, inExpr bool) string {
 // strExpr returns a string-valued expression valid in sc.
 func (g *G) strExpr(sc scopeInfo, depth int) string {
 	var alts []string
-	alts = append(alts, `"lit"`, "s", `item.Name`, `names[0]`, `item.ExtraNote`, `root.MetaName`)
+	alts = append(alts, `"lit"`, "s", `item.Name`, `names[0]`, `item.ExtraNote`, `root.MetaName`, `root.Col.Name`, `root.Col.Only`)
 	if !sc.noLocals {
 		for _, v := range sc.vars {
 			alts = append(alts, v)
